@@ -245,4 +245,51 @@ example : twoSidedM ftsPmf4 ftsCdf4 2 1 2 (9999 / 10000) = min 1 (massLE ftsPmf4
     (by intro k h1 h2; interval_cases k <;> norm_num [ftsPmf4])
     (Or.inr (by intro k h1 h2; interval_cases k; norm_num [ftsPmf4]))
 
+/-! ### pmf 5: `[0.6, 0.3, 0.1]` on `0..2`, mode 0 (the mode of a table with a zero top-left cell) -/
+
+noncomputable def ftsPmf5 : ℤ → ℝ := fun k =>
+  if k = 0 then 6 / 10 else if k = 1 then 3 / 10 else if k = 2 then 1 / 10 else 0
+
+noncomputable def ftsCdf5 : ℤ → ℝ := fun k => ∑ j ∈ Icc 0 k, ftsPmf5 j
+
+theorem ftsSpec5 : UnimodalPmfSpec ftsPmf5 ftsCdf5 0 2 0 where
+  lo_nonneg := le_refl _
+  lo_le_mode := le_refl _
+  mode_le_hi := by norm_num
+  pos := by intro k h1 h2; interval_cases k <;> norm_num [ftsPmf5]
+  zero_below := by intro k h1 h2; omega
+  zero_above := by
+    intro k hk; unfold ftsPmf5; rw [if_neg (by omega), if_neg (by omega), if_neg (by omega)]
+  incr := by intro k h1 h2; omega
+  le_mode := by norm_num [ftsPmf5]
+  decr := by intro k h1 h2; interval_cases k <;> norm_num [ftsPmf5]
+  cdf_eq := fun _ => rfl
+  total := by rw [fts_sum_Icc_0_2]; norm_num [ftsPmf5]
+
+/-- `a = 0 = mode`: the code returns 1, the textbook value, and both bounds of
+    `twoSidedM_bounds` hold with equality (the upper tail `P(X ≥ 0)` is never computed as
+    `1 − F (0 − 1)`) -/
+example : twoSidedM ftsPmf5 ftsCdf5 2 0 0 (9999 / 10000) = 1 ∧
+    massLE ftsPmf5 0 2 (ftsPmf5 0) = 1 ∧ massLE ftsPmf5 0 2 (ftsPmf5 0 / (9999 / 10000)) = 1 :=
+  twoSidedM_at_mode ftsSpec5 2 (9999 / 10000) (by norm_num) (by norm_num)
+
+example : massLE ftsPmf5 0 2 (ftsPmf5 0) ≤ twoSidedM ftsPmf5 ftsCdf5 2 0 0 (9999 / 10000) ∧
+    twoSidedM ftsPmf5 ftsCdf5 2 0 0 (9999 / 10000) ≤ massLE ftsPmf5 0 2 (ftsPmf5 0 / (9999 / 10000)) :=
+  let h := twoSidedM_bounds ftsSpec5 2 0 (le_refl _) (by norm_num) (le_refl _) (by norm_num)
+    (Or.inr (by norm_num [loopFuel])) (9999 / 10000) (by norm_num) (by norm_num)
+  ⟨h.2.2 (Or.inr (by intro k h1 h2; omega)), h.2.1⟩
+
+/-- branch 4 at `mode = 0`: observed `a = 2` (`p = 0.1`), `f 0 = 0.6 > p/e`: upper tail only -/
+example : twoSidedM ftsPmf5 ftsCdf5 2 0 2 (9999 / 10000) = 1 - ftsCdf5 1 ∧
+    1 - ftsCdf5 1 = massLE ftsPmf5 0 2 (ftsPmf5 2) :=
+  let h := twoSided_upper_shortcut ftsSpec5 2 2 (by norm_num) (le_refl _) (9999 / 10000)
+    (by norm_num) (by norm_num) (by norm_num [ftsPmf5]) (by norm_num [ftsPmf5])
+  ⟨by simpa using h.1, by simpa using h.2.1⟩
+
+/-- `twoSidedM_zero_cell` on a NON-unimodal `f` (constant 0, so `0/0`-style junk in the near-mode
+    test is possible for other carriers): at `a = 0 = mode` no `usub 0 1` is formed and the value
+    is 1 -/
+example : twoSidedM (fun _ => 0) (fun _ => 0) 2 0 0 (9999 / 10000) = 1 := by
+  rw [twoSidedM_zero_cell]; norm_num
+
 end Statrs.Props.C16
